@@ -3,6 +3,10 @@ package main
 import (
 	"fmt"
 	"strings"
+
+	"github.com/emirpasic/gods/v2/queues/priorityqueue"
+	"github.com/emirpasic/gods/v2/sets/treeset"
+	"github.com/emirpasic/gods/v2/trees/binaryheap"
 )
 
 // jobsFor lists the exploration jobs of one property at one tier.
@@ -32,12 +36,15 @@ func jobsFor(prop, tier string) []Job {
 		for _, c := range []string{"nat", "rev", "coarse"} {
 			add("kv", fmt.Sprintf("treemap.fixed.%s.u%d", c, u+2), u, map[string]string{"c": "treemap", "cmp": c}, map[string]int{"u": u + 2})
 		}
+		defaultCtorJobs(prop, q, add)
 		bidiJobs(prop, q, add)
 	case "C02":
+		defaultCtorJobs(prop, q, add)
 		kvTreeJobs(prop, q, add)
 		bidiJobs(prop, q, add)
 	case "C07":
 		kvTreeJobs(prop, q, add)
+		defaultCtorJobs(prop, q, add)
 		bidiJobs(prop, q, add)
 	case "C10":
 		bidiJobs(prop, q, add)
@@ -45,11 +52,15 @@ func jobsFor(prop, tier string) []Job {
 		n := pick(6, 8)
 		for _, k := range []string{"arraylist", "singlylinkedlist", "doublylinkedlist"} {
 			add("list", fmt.Sprintf("%s.n%d", k, n), n, map[string]string{"c": k}, map[string]int{"n": n, "u": 3})
+			// deep, data-independent: fresh values dropped from the fingerprint, state = (length, capacity)
+			dn := pick(70, 140)
+			add("list", fmt.Sprintf("%s.deep.n%d", k, dn), n, map[string]string{"c": k}, map[string]int{"n": dn, "deep": 1})
 		}
 	case "C04":
 		u := pick(4, 5)
 		add("set", fmt.Sprintf("hashset.u%d", u), u, map[string]string{"c": "hashset"}, map[string]int{"u": u})
 		add("set", fmt.Sprintf("linkedhashset.u%d", u), u*u, map[string]string{"c": "linkedhashset"}, map[string]int{"u": u})
+		add("set", fmt.Sprintf("treeset.New.u%d", u+1), u*u, map[string]string{"c": "treeset", "ctor": "default"}, map[string]int{"u": u + 1})
 		for _, c := range []string{"nat", "rev", "coarse"} {
 			add("set", fmt.Sprintf("treeset.%s.u%d", c, u+1), u*u, map[string]string{"c": "treeset", "cmp": c}, map[string]int{"u": u + 1})
 			n := pick(10, 14)
@@ -57,6 +68,7 @@ func jobsFor(prop, tier string) []Job {
 		}
 	case "C06":
 		for _, k := range []string{"binaryheap", "priorityqueue"} {
+			add("heapnew", fmt.Sprintf("%s.New.n%d", k, pick(6, 8)), 30, map[string]string{"c": k}, map[string]int{"n": pick(6, 8), "u": 3})
 			for _, c := range []string{"min", "max"} {
 				n := pick(5, 6)
 				add("heap", fmt.Sprintf("%s.%s.n%d.p3", k, c, n), n*10, map[string]string{"c": k, "cmp": c}, map[string]int{"n": n, "pmax": 3, "jsonlen": pick(3, 4)})
@@ -68,6 +80,13 @@ func jobsFor(prop, tier string) []Job {
 				// array with >= 9 elements (a new element at index >= 7 has its parent at index >= 3)
 				dn := pick(10, 13)
 				add("heap", fmt.Sprintf("%s.%s.deep.n%d.p2", k, c, dn), 60, map[string]string{"c": k, "cmp": c}, map[string]int{"n": dn, "pmax": 2, "ids": 1, "jsonlen": 3})
+				// three mutually tied, distinguishable elements on one level need >= 6 elements with 3 ids
+				add("heap", fmt.Sprintf("%s.%s.ties.n7", k, c), 40, map[string]string{"c": k, "cmp": c}, map[string]int{"n": 7, "pmax": 1, "ids": 3, "jsonlen": 3})
+				// large heaps, skewed: all elements of the greatest priority except at most two smaller ones
+				if k == "binaryheap" { // the priority queue has no bulk path (Enqueue takes one value)
+					xn := pick(30, 70)
+					add("heap", fmt.Sprintf("%s.%s.skew.n%d", k, c, xn), 80, map[string]string{"c": k, "cmp": c}, map[string]int{"n": xn, "pmax": 2, "ids": 1, "jsonlen": 2, "skew": 2})
+				}
 			}
 		}
 	case "C08":
@@ -85,6 +104,8 @@ func jobsFor(prop, tier string) []Job {
 		add("iter", "treebidimap", 4, map[string]string{"c": "treebidimap"}, map[string]int{"u": pick(4, 5)})
 		for _, c := range []string{"binaryheap", "priorityqueue"} {
 			add("iter", c, n, map[string]string{"c": c}, map[string]int{"n": pick(5, 7), "pmax": 2, "jsonlen": 0})
+			// three mutually tied distinguishable elements on one heap level: >= 6 elements, 3 ids
+			add("iter", c+".ties", n, map[string]string{"c": c}, map[string]int{"n": pick(7, 8), "pmax": 1, "ids": 3, "jsonlen": 0})
 		}
 		for _, c := range []string{"rbt", "avl", "treemap"} {
 			add("iter", c, 20, map[string]string{"c": c}, map[string]int{"n": pick(8, 11), "rank": 1})
@@ -134,7 +155,22 @@ func jobsFor(prop, tier string) []Job {
 			add("json11", jb.id, jb.w, jb.s, jb.p)
 		}
 	case "C12":
-		for _, jb := range jsonContainerJobs(q, pick(2, 3), pick(2, 3)) {
+		cj := jsonContainerJobs(q, pick(2, 3), pick(2, 3))
+		// comparators with ties between distinct JSON keys / elements (the reference is relational:
+		// the fold of Put over the decoded pairs in SOME order)
+		for _, el := range []string{"int", "str"} {
+			for _, c := range []string{"treemap", "rbt", "avl", "treeset", "treebidimap"} {
+				s := map[string]string{"c": c, "cmp": "coarsej", "elem": el}
+				if c == "treebidimap" {
+					cj = append(cj, cjob{c + ".coarsej.nat." + el, 2, map[string]string{"c": c, "cmp": "coarsej", "vcmp": "nat", "elem": el}, map[string]int{"u": 2, "vu": 2}})
+					cj = append(cj, cjob{c + ".nat.coarsej." + el, 2, map[string]string{"c": c, "cmp": "nat", "vcmp": "coarsej", "elem": el}, map[string]int{"u": 2, "vu": 2}})
+					continue
+				}
+				cj = append(cj, cjob{c + ".coarsej." + el, 2, s, map[string]int{"u": pick(2, 3), "vu": 2}})
+			}
+			cj = append(cj, cjob{"btree3.coarsej." + el, 2, map[string]string{"c": "btree", "cmp": "coarsej", "elem": el}, map[string]int{"m": 3, "u": pick(3, 4), "vu": 2}})
+		}
+		for _, jb := range cj {
 			jb.p["depth"] = pick(2, 3)
 			jb.p["prior"] = pick(2, 3)
 			add("json12", jb.id, jb.w+10, jb.s, jb.p)
@@ -226,6 +262,14 @@ func jobsFor(prop, tier string) []Job {
 		for c := 1; c <= pick(4, 6); c++ {
 			add("seq", fmt.Sprintf("ring%d", c), c, map[string]string{"c": "circularbuffer"}, map[string]int{"cap": c, "u": 2})
 		}
+		// deep, data-independent jobs: fresh values dropped from the fingerprint
+		dn := pick(40, 100)
+		for _, k := range []string{"arraystack", "linkedliststack", "arrayqueue", "linkedlistqueue"} {
+			add("seq", fmt.Sprintf("%s.deep.n%d", k, dn), 3, map[string]string{"c": k}, map[string]int{"n": dn, "deep": 1})
+		}
+		for _, c := range []int{7, 8, 16, pick(17, 33)} {
+			add("seq", fmt.Sprintf("ring%d.deep", c), 3, map[string]string{"c": "circularbuffer"}, map[string]int{"cap": c, "deep": 1})
+		}
 	}
 	return jobs
 }
@@ -260,6 +304,12 @@ func allContainerJobs(q bool) []cjob {
 	for _, c := range []string{"binaryheap", "priorityqueue"} {
 		js = append(js, cjob{c, 3, map[string]string{"c": c}, map[string]int{"n": n, "pmax": 2, "jsonlen": 2}})
 	}
+	// deep, data-independent configurations: sizes past every growth / memoisation threshold
+	dn := pick(36, 70)
+	for _, c := range []string{"arraylist", "singlylinkedlist", "doublylinkedlist", "arraystack", "arrayqueue", "linkedliststack", "linkedlistqueue", "binaryheap", "priorityqueue"} {
+		js = append(js, cjob{c + ".deep", 8, map[string]string{"c": c}, map[string]int{"n": dn, "deep": 1}})
+	}
+	js = append(js, cjob{"circularbuffer16.deep", 4, map[string]string{"c": "circularbuffer"}, map[string]int{"cap": 16, "deep": 1}})
 	js = append(js, cjob{"hashset", 1, map[string]string{"c": "hashset"}, map[string]int{"u": n}})
 	js = append(js, cjob{"linkedhashset", 2, map[string]string{"c": "linkedhashset"}, map[string]int{"u": n}})
 	js = append(js, cjob{"treeset", 2, map[string]string{"c": "treeset"}, map[string]int{"u": n}})
@@ -323,11 +373,26 @@ func jsonContainerJobs(q bool, n, u int) []cjob {
 	return js
 }
 
+// defaultCtorJobs: the default constructors New[K cmp.Ordered]() (every other job uses NewWith).
+func defaultCtorJobs(prop string, q bool, add func(kind, id string, w int, s map[string]string, p map[string]int)) {
+	u := 7
+	if !q {
+		u = 9
+	}
+	for _, c := range []string{"rbt", "avl", "treemap"} {
+		add("kv", fmt.Sprintf("%s.New.u%d", c, u), u, map[string]string{"c": c, "ctor": "default"}, map[string]int{"u": u})
+	}
+	for _, m := range []int{3, 5} {
+		add("kv", fmt.Sprintf("btree%d.New.u%d", m, u), u, map[string]string{"c": "btree", "ctor": "default"}, map[string]int{"u": u, "m": m})
+	}
+}
+
 func bidiJobs(prop string, q bool, add func(kind, id string, w int, s map[string]string, p map[string]int)) {
 	u := 3
 	if !q {
 		u = 4
 	}
+	add("kv", fmt.Sprintf("treebidimap.New.u%d", u), u, map[string]string{"c": "treebidimap", "ctor": "default"}, map[string]int{"u": u})
 	add("kv", fmt.Sprintf("hashbidimap.u%d", u), u, map[string]string{"c": "hashbidimap"}, map[string]int{"u": u})
 	for _, kc := range []string{"nat", "rev", "coarse"} {
 		for _, vc := range []string{"nat", "rev", "coarse"} {
@@ -354,20 +419,47 @@ func explanationFor(prop string) string {
 }
 
 func intListSys(kind string, n, u int) *ListSys[int] {
-	return &ListSys[int]{Kind: kind, U: intRange(1, u), Absent: u + 1, Poison: -99, N: n,
+	return &ListSys[int]{Kind: kind, U: intU(u), Absent: u + 1, Poison: -99, N: n,
 		Cmps: map[string]func(a, b int) int{"nat": intCmp("nat"), "rev": intCmp("rev"), "coarse": intCmp("coarse")}}
 }
 
 func intSetSys(kind, cmpN string, u int) *SetSys[int] {
-	return &SetSys[int]{Kind: kind, CmpN: cmpN, U: intRange(1, u), Absent: u + 2, Poison: -99, Cmp: intCmp(cmpN), Tuples: defaultSetTuples(u)}
+	return &SetSys[int]{Kind: kind, CmpN: cmpN, U: intU(u), Absent: u + 2, Poison: -99, Cmp: intCmp(cmpN), Tuples: defaultSetTuples(u)}
 }
 
 func init() {
 	jobKinds["set"] = func(j Job, r *JobResult) {
-		exploreJob(j, r, intSetSys(j.s("c", ""), j.s("cmp", "nat"), j.p("u", 4)), nil)
+		s := intSetSys(j.s("c", ""), j.s("cmp", "nat"), j.p("u", 4))
+		if j.s("ctor", "") == "default" {
+			s.Label = "/New()"
+			s.Cmp = intCmp("nat")
+			s.Custom = func(vals ...int) *setAPI[int] { return wrapTreeSet(treeset.New[int](vals...)) }
+		}
+		exploreJob(j, r, s, nil)
+	}
+	// BinaryHeap.New / PriorityQueue.New (default min-order constructors), plain int elements
+	jobKinds["heapnew"] = func(j Job, r *JobResult) {
+		s := scalarHeapSys[int](j.s("c", ""), "min", j.p("n", 6), intU(j.p("u", 3)), -99, 3)
+		s.Label = "/New()"
+		if s.Kind == "binaryheap" {
+			s.Custom = func(b *heapBox[int]) { b.a = wrapHeap(binaryheap.New[int]()) }
+		} else {
+			s.Custom = func(b *heapBox[int]) { b.a = wrapPQ(priorityqueue.New[int]()) }
+		}
+		exploreJob(j, r, s, func(e *Explorer) {
+			e.OnState = func(path []Op, build func() Inst, st *Stats) *Viol {
+				st.Nested["drains"]++
+				return build().(*heapBox[int]).drain()
+			}
+		})
 	}
 	jobKinds["heap"] = func(j Job, r *JobResult) {
 		s := heSysIDs(j.s("c", ""), j.s("cmp", "min"), j.p("n", 5), j.p("pmax", 3), j.p("jsonlen", 3), j.p("ids", 2))
+		s.Skew = j.p("skew", 0)
+		if s.Skew == 0 && j.p("ids", 2) == 2 {
+			// inputs with null entries and omitted fields (decoded over whatever the backing array held)
+			s.JSONTexts = []string{`[null]`, `[null,{"P":1,"ID":1}]`, `[{"P":1},null,{"ID":1}]`, `[{"ID":1},{"P":2}]`}
+		}
 		exploreJob(j, r, s, func(e *Explorer) {
 			e.OnState = func(path []Op, build func() Inst, st *Stats) *Viol {
 				st.Nested["drains"]++
@@ -376,13 +468,36 @@ func init() {
 		})
 	}
 	jobKinds["list"] = func(j Job, r *JobResult) {
+		if j.p("deep", 0) == 1 {
+			exploreJob(j, r, makeSys(j.s("c", ""), j), nil)
+			return
+		}
 		exploreJob(j, r, intListSys(j.s("c", ""), j.p("n", 6), j.p("u", 3)), nil)
 	}
 	jobKinds["seq"] = func(j Job, r *JobResult) {
-		s := &SeqSys[int]{Kind: j.s("c", ""), Cap: j.p("cap", 0), N: j.p("n", 5), Poison: -99}
-		for i := 1; i <= j.p("u", 3); i++ {
-			s.U = append(s.U, i)
+		if j.p("deep", 0) == 1 {
+			s := &SeqSys[Val]{Kind: j.s("c", ""), Cap: j.p("cap", 0), N: j.p("n", 40), Poison: -99, Gen: func(i int) Val { return Val(i) }}
+			exploreJob(j, r, s, nil)
+			return
 		}
+		s := &SeqSys[int]{Kind: j.s("c", ""), Cap: j.p("cap", 0), N: j.p("n", 5), Poison: -99}
+		// FromJSON of every array up to length min(cap+1, 3) / 3 over the universe
+		maxl := 3
+		if s.Cap > 0 && s.Cap+1 < maxl {
+			maxl = s.Cap + 1
+		}
+		uu := j.p("u", 3)
+		var gen func(cur []int)
+		gen = func(cur []int) {
+			s.JSONs = append(s.JSONs, append([]int{}, cur...))
+			if len(cur) < maxl {
+				for x := 0; x < uu; x++ {
+					gen(append(cur, x))
+				}
+			}
+		}
+		gen(nil)
+		s.U = intU(j.p("u", 3))
 		exploreJob(j, r, s, func(e *Explorer) {
 			e.OnState = func(path []Op, build func() Inst, st *Stats) *Viol {
 				b := build().(*seqBox[int])
